@@ -68,6 +68,20 @@ fn main() {
         }
         i += 2;
     }
+    // the unit-level engines are deterministic in (seed, tier): their replay is the recorded seed
+    if let Some(p) = o.replay.clone() {
+        if matches!(o.engine.as_str(), "quorum" | "verify" | "leader" | "aggregator") {
+            if let Ok(txt) = std::fs::read_to_string(&p) {
+                if let Ok(v) = serde_json::from_str::<serde_json::Value>(&txt) {
+                    let inner = v.get("replay").cloned().unwrap_or(v);
+                    if let Some(s) = inner["seed"].as_u64() {
+                        o.seed = s;
+                    }
+                }
+            }
+            o.replay = None;
+        }
+    }
     let report = match o.engine.as_str() {
         "quorum" => e1_quorum::run(&o),
         "verify" => e1_unit::run_verify(&o),
